@@ -387,7 +387,9 @@ class I2CInitiator(Elaboratable):
             with m.State("IDLE"):
                 m.d.sync += self.busy.eq(1)
                 with m.If(self.start):
-                    with m.If(bus.scl_i & bus.sda_i):
+                    # (sda_i is synchronized, and thus lags what we're driving by a few cycles; so also check
+                    # that we're not pulling SDA low ourselves before deciding the bus is free.)
+                    with m.If(bus.scl_i & bus.sda_i & bus.sda_o):
                         m.next = "START-SDA-L"
                     with m.Elif(~bus.scl_i):
                         m.next = "START-SCL-H"
